@@ -1,6 +1,7 @@
 SPECIFICATION Spec
 INVARIANT AssocLaw
 INVARIANT ReflectLaw
+INVARIANT GaussLaw
 INVARIANT Emit
 INVARIANT EmitUnits
 CHECK_DEADLOCK FALSE
